@@ -132,7 +132,7 @@ def dispatchC20 : List Str → Option (List Str)
       | _ => some ["bad-request".toList]
     else if cmd == "c20.rejectionmsg".toList then
       match args with
-      | [p, e] => some ["ok".toList, Markup.rejectionMsg Gen.rejectionMsg p e]
+      | [p, e] => some ["ok".toList, Markup.rejectionText Gen.rejectionRules p e]
       | _ => some ["bad-request".toList]
     else if cmd == "c20.diagspec".toList then
       some ["ok".toList, joinSep ',' (Gen.warnSpec.args.map showArg),
